@@ -310,6 +310,8 @@ E2EJoin(vs) ==
 E2EJoinR(vs) == {[s EXCEPT !.retry = (s.inRoom /\ s.mem = "none" /\ s.jr \in {"public", "restricted"}
                                         /\ s.allow \in {<<>>, <<"listed">>}),
                            !.fb = IF ScenarioSet = "e2e_quick" /\ ~(s.inRoom /\ s.mem # "ban") THEN 1 ELSE 9] : s \in E2EJoin(vs)}
+\* the three-forgery configuration: one room version, no retries (the two-forgery configurations have them)
+E2EJoin3(vs) == {[s EXCEPT !.retry = FALSE] : s \in E2EJoinR(vs)}
 E2ELeave(vs)  == {[Base(v) EXCEPT !.mem = mem, !.inRoom = ir] : v \in vs, mem \in {"join", "ban"}, ir \in BOOLEAN}
 E2EInvite(vs) == {[Base(v) EXCEPT !.mem = mem, !.known = kn, !.stripped = st] :
                       v \in vs, mem \in {"none", "join"}, kn \in BOOLEAN, st \in {"none", "given"}}
@@ -329,7 +331,8 @@ Scenarios(flw) ==
                 [] OTHER -> {"10"}
         ok(s) == (s.jr \in RestrictedRules => RestrictedSupported(s.ver))
         allv == ScenarioSet \in {"e2e_quick", "e2e_thorough"}
-    IN  CASE flw = "join"   -> {s \in E2EJoinR(vs) \cup (IF allv THEN AllVerJoin ELSE {}) : ok(s)}
+    IN  CASE flw = "join"   -> {s \in (IF ScenarioSet = "e2e_three" THEN E2EJoin3(vs) ELSE E2EJoinR(vs))
+                                        \cup (IF allv THEN AllVerJoin ELSE {}) : ok(s)}
           [] flw = "leave"  -> E2ELeave(vs) \cup (IF allv THEN AllVerLeave ELSE {})
           [] flw = "invite" -> E2EInvite(vs) \cup (IF allv THEN AllVerInvite ELSE {})
 
